@@ -28,7 +28,7 @@ NSHARDS = {"quick": 16, "thorough": 16}
 FIELDS = ["name", "grid_n", "n_mazes", "maze_ctor", "maze_ctor_kwargs", "endpoint_kwargs", "seed", "applied_filters"]
 THRESHOLDS = {"quick": {"c18:roundtrip": 2000, "c18:roundtrip-json": 2000, "c18:hash-cross-process": 2000, "c18:hashseeds": 3,
                         **{f"c18:pair:{f}": 100 for f in FIELDS}, "c18:fname": 2000, "c18:collection-cfg": 50,
-                        "c18:in-place": 500, "c18:in-place:container-edit": 100, "c18:eq": 500, "c18:tuples-restored:endpoint": 300, "c18:tuples-restored:filters": 300, "c18:gen:gen_dfs": 1,
+                        "c18:in-place": 500, "c18:serialized-dict-edited-by-caller": 300, "c18:in-place:container-edit": 100, "c18:eq": 500, "c18:tuples-restored:endpoint": 300, "c18:tuples-restored:filters": 300, "c18:gen:gen_dfs": 1,
                         "c18:gen:gen_wilson": 1, "c18:gen:gen_percolation": 1, "c18:gen:gen_dfs_percolation": 1, "c18:gen:gen_prim": 1}}
 THRESHOLDS["thorough"] = dict(THRESHOLDS["quick"])
 ANCHORS = ["maze_dataset.dataset.maze_dataset:_load_maze_ctor", "maze_dataset.dataset.dataset:_load_applied_filters",
@@ -123,6 +123,42 @@ def mutate(spec, field, rng):
     return s
 
 
+def _own_ids(cfg):
+    """ids of every container that is part of the configuration object's own state (serialize() hands some of them out by
+    reference; editing those *is* editing the configuration, which is not what is tested here)"""
+    seen = set()
+
+    def walk(o):
+        if isinstance(o, (dict, list, tuple, set)):
+            if id(o) in seen:
+                return
+            seen.add(id(o))
+            for v in (o.values() if isinstance(o, dict) else o):
+                walk(v)
+
+    for v in vars(cfg).values():
+        walk(v)
+    return seen
+
+
+def _scramble(o, own, depth=0):
+    """destructively edit, in place, every container of a serialized form that serialize() built for the caller (containers that
+    belong to the configuration itself are left alone)"""
+    if id(o) in own:
+        return
+    if isinstance(o, dict):
+        for k in list(o):
+            _scramble(o[k], own, depth + 1)
+        for k in list(o)[::2]:
+            if depth > 0:
+                o.pop(k)
+        o["__edited__"] = True
+    elif isinstance(o, list):
+        for v in o:
+            _scramble(v, own, depth + 1)
+        o.append("edited")
+
+
 def fields_of(cfg):
     return dict(name=cfg.name, grid_n=cfg.grid_n, n_mazes=cfg.n_mazes, seed=cfg.seed, seq_len_min=cfg.seq_len_min, seq_len_max=cfg.seq_len_max,
                 maze_ctor_kwargs=cfg.maze_ctor_kwargs, endpoint_kwargs=cfg.endpoint_kwargs, applied_filters=cfg.applied_filters)
@@ -190,6 +226,11 @@ def run(ctx):
         ctx.tally(f"c18:gen:{spec['maze_ctor']}")
         with ctx.guard("C18/construct", dict(spec=spec)):
             cfg = make_cfg(spec)
+            if len(local) % 4 == 1:
+                # a caller that trims / edits the dict it got from serialize() (to log it, say) owns that dict: nothing it does to it
+                # may change the identity of this or any other configuration
+                _scramble(cfg.serialize(), _own_ids(cfg))
+                ctx.tally("c18:serialized-dict-edited-by-caller")
             h = int(cfg.stable_hash_cfg())
             fn = cfg.to_fname()
             local[spec["key"]] = [h, fn]
